@@ -30,8 +30,8 @@ HDR = ['##fileformat=VCFv4.2', '##mopepgen_version=1.4.6', '##parser=parseVEP', 
        '#CHROM\tPOS\tID\tREF\tALT\tQUAL\tFILTER\tINFO']
 
 def gvf_text(records, source='gSNP'):
-    rows = ['%s\t%d\t%s\t%s\t%s\t.\t.\tTRANSCRIPT_ID=%s;GENOMIC_POSITION=%s:%d;GENE_SYMBOL=%s' % (
-        r['gene'], r['pos'], r['id'], r['ref'], r['alt'], r['tx'], r['chrom'], r['gpos'], r['symbol']) for r in records]
+    rows = ['%s\t%d\t%s\t%s\t%s\t.\t.\tTRANSCRIPT_ID=%s;%sGENOMIC_POSITION=%s:%d;GENE_SYMBOL=%s' % (
+        r['gene'], r['pos'], r['id'], r['ref'], r['alt'], r['tx'], r.get('extra', ''), r['chrom'], r['gpos'], r['symbol']) for r in records]
     return '\n'.join([h % source if '%s' in h else h for h in HDR] + rows) + '\n'
 
 def world_texts(world):
@@ -57,6 +57,98 @@ def mk_record(rng, world, gene, tx, ti, kind):
         alt, typ = rng.choice([b for b in 'ACGT' if b != ref]), 'SNV'
     return dict(gene=gene['id'], pos=gi + 1, id='%s-%d-%s-%s' % (typ, gi + 1, ref, alt), ref=ref, alt=alt, tx=tx['id'],
                 chrom=gene['chrom'], gpos=G.tx2g(gene, tx, ti) + 1, symbol=gene['name'])
+
+def tx_exons(gene, tx):
+    """exons in transcription order as gene-coordinate half-open intervals"""
+    out = []
+    for a, b in (tx['exons'] if gene['strand'] == 1 else list(reversed(tx['exons']))):
+        g0 = G.g2gene(gene, a if gene['strand'] == 1 else b - 1)
+        out.append((g0, g0 + (b - a)))
+    return out
+
+def as_records(rng, world, gene, tx):
+    """Alternative-splicing style records (<INS>/<DEL>/<SUB>, gene coordinates, 1-based inclusive DONOR_START/
+    DONOR_END/START/END as parseRMATS writes them) for a transcript with >= 2 exons, including PAIRS that differ
+    in exactly one attribute (DONOR_END or DONOR_START) and are otherwise identical (same POS/REF/ALT)."""
+    ex = tx_exons(gene, tx)
+    gs = G.gene_seq(world, gene)
+    base = dict(gene=gene['id'], tx=tx['id'], chrom=gene['chrom'], symbol=gene['name'], gpos=1)
+    out = []
+    introns = [(ex[i][1], ex[i + 1][0], i) for i in range(len(ex) - 1) if ex[i + 1][0] - ex[i][1] >= 8]
+    if introns and rng.random() < 0.8:
+        s, e, i = rng.choice(introns)
+        anchor = s - 1                                  # last base of the upstream exon
+        L = e - s
+        kind = rng.choice(['donor_end', 'donor_end', 'donor_start', 'single'])
+        if kind == 'donor_end':                         # exon extended by l1 or by l2 bases of the intron (A5SS-like)
+            l1, l2 = sorted(rng.sample(range(3, L + 1), 2)) if L >= 4 else (3, L)
+            spans = [(s, s + l1), (s, s + l2)]
+        elif kind == 'donor_start':                     # two intronic pieces ending at the same base
+            a1, a2 = sorted(rng.sample(range(s, e - 3), 2)) if e - 3 - s >= 2 else (s, s + 1)
+            spans = [(a1, e), (a2, e)]
+        else:
+            spans = [(s, s + rng.randint(3, L))]
+        for (a, b) in spans:
+            out.append(dict(base, pos=anchor + 1, id='A5SS_%d_%d_%d' % (anchor + 1, a + 1, b), ref=gs[anchor], alt='<INS>',
+                            extra='DONOR_GENE_ID=%s;DONOR_START=%d;DONOR_END=%d;' % (gene['id'], a + 1, b)))
+    if len(ex) >= 3 and rng.random() < 0.5:             # an internal exon skipped (SE as deletion)
+        i = rng.randrange(1, len(ex) - 1)
+        a, b = ex[i]
+        out.append(dict(base, pos=a + 1, id='SE_%d' % (a + 1), ref=gs[a], alt='<DEL>', extra='START=%d;END=%d;' % (a + 1, b)))
+    if len(ex) >= 3 and introns and rng.random() < 0.3:  # an internal exon replaced by an intronic piece (MXE as substitution)
+        i = rng.randrange(1, len(ex) - 1)
+        a, b = ex[i]
+        s, e, _ = rng.choice(introns)
+        pieces = [(s, min(e, s + rng.randint(4, 30)))]
+        if e - s >= 8 and rng.random() < 0.5:
+            pieces.append((s, min(e, pieces[0][1] + rng.randint(1, 5))))
+        for (c0, c1) in pieces:
+            if c1 <= a or c0 >= b:
+                out.append(dict(base, pos=a + 1, id='MXE_%d_%d_%d' % (a + 1, c0 + 1, c1), ref=gs[a], alt='<SUB>',
+                                extra='START=%d;END=%d;DONOR_GENE_ID=%s;DONOR_START=%d;DONOR_END=%d;' % (a + 1, b, gene['id'], c0 + 1, c1)))
+    # distinct (pos, alt, extra) only
+    seen, uniq = set(), []
+    for r in out:
+        k = (r['pos'], r['alt'], r['extra'])
+        if k not in seen:
+            seen.add(k); uniq.append(r)
+    return uniq
+
+def fusion_records(rng, world, gene, tx):
+    """<FUSION> records with tx as donor: breakpoint at an exonic position of the donor, accepter = an exonic position
+    of a transcript of ANOTHER gene; with probability 1/2 a second record that differs ONLY in ACCEPTER_POSITION or
+    only in ACCEPTER_TRANSCRIPT_ID (another isoform of the accepter gene)"""
+    others = [(g, t) for g in world['genes'] if g['id'] != gene['id'] for t in g['transcripts']]
+    if not others:
+        return []
+    gs = G.gene_seq(world, gene)
+    n = G.tx_len(tx)
+    ti = rng.randrange(max(1, (tx['cds'][0] + 6) if tx['cds'] else 3), max(2, n - 3))
+    gi = G.g2gene(gene, G.tx2g(gene, tx, min(ti, n - 1)))
+    g2, t2 = rng.choice(others)
+    def acc(g2, t2, k):
+        k = min(max(1, k), G.tx_len(t2) - 2)
+        return G.g2gene(g2, G.tx2g(g2, t2, k))
+    a1 = acc(g2, t2, rng.randrange(1, max(2, G.tx_len(t2) - 2)))
+    recs = [(g2, t2, a1)]
+    if rng.random() < 0.5:
+        iso = [t for t in g2['transcripts'] if t['id'] != t2['id']]
+        if iso and rng.random() < 0.5:
+            t3 = rng.choice(iso)
+            # the same accepter gene position must be exonic in the other isoform
+            if G.g2tx(g2, t3, G.gene2g(g2, a1)) is not None:
+                recs.append((g2, t3, a1))
+        else:
+            a2 = acc(g2, t2, rng.randrange(1, max(2, G.tx_len(t2) - 2)))
+            if a2 != a1:
+                recs.append((g2, t2, a2))
+    out = []
+    for (ga, ta, ap) in recs:
+        out.append(dict(gene=gene['id'], tx=tx['id'], chrom=gene['chrom'], symbol=gene['name'], gpos=1, pos=gi + 1,
+                        id='FUSION-%s:%d-%s:%d' % (tx['id'], gi + 1, ta['id'], ap + 1), ref=gs[gi], alt='<FUSION>',
+                        extra='ACCEPTER_GENE_ID=%s;ACCEPTER_TRANSCRIPT_ID=%s;ACCEPTER_SYMBOL=%s;ACCEPTER_POSITION=%d;ACCEPTER_GENOMIC_POSITION=%s:%d:%d;'
+                              % (ga['id'], ta['id'], ga['name'], ap + 1, ga['chrom'], 1, 1)))
+    return out
 
 def intron_record(rng, world, gene, tx):
     """SNV inside an intron of tx (every record intronic => the series is empty => transcript skipped)"""
@@ -116,7 +208,7 @@ def gen_world_case(rng, max_tx=7, p_intronic=0.3, cluster_p=0.0, nrec=(1, 1, 2, 
         k = (r['tx'], r['id'])
         if k not in seen:
             seen.add(k); uniq.append(r)
-    return dict(world=world_texts(world), records=uniq, plan=plan)
+    return dict(world=world_texts(world), records=uniq, plan=plan, _world=world)
 
 NOCUT = 'ADEFGHNQSTVWYLIC'
 
@@ -210,6 +302,29 @@ def gen_paralog_case(rng):
             seen.add((r['tx'], r['pos'])); uniq.append(r)
     return dict(world=world_texts(world), records=uniq, plan={t['id']: 'exonic' for g in world['genes'] for t in g['transcripts']},
                 paralog=dict(residue=k, peptide_len=spans[k]))
+
+def mutate_proteome(rng, text):
+    """proteome entries as translation tools emit them: terminal '*', an inner '*', a leading X"""
+    out, kinds = [], collections.Counter()
+    if not text.strip():
+        return text, {}
+    lines = text.strip().split('\n')
+    for i in range(0, len(lines), 2):
+        h, sq = lines[i], lines[i + 1]
+        x = rng.random()
+        if x < 0.3:
+            sq += '*'; kinds['terminal*'] += 1
+        elif x < 0.4 and len(sq) > 10:
+            k = rng.randrange(4, len(sq) - 3)
+            sq = sq[:k] + '*' + sq[k + 1:]; kinds['inner*'] += 1
+        elif x < 0.5:
+            sq = 'X' + sq[1:]; kinds['leadingX'] += 1
+        out += [h, sq]
+    return '\n'.join(out) + '\n', dict(kinds)
+
+def alternate_split(records):
+    """records alternately into two files: members of a pair (adjacent in the list) land in different files"""
+    return [records[0::2], records[1::2]]
 
 def single_file_layouts(rng, records):
     """layouts in ONE file in which a transcript's records form several non-adjacent blocks:
@@ -402,17 +517,39 @@ def eval_loop(ctx, cases, variant):
 # ----------------------------------------------------------------------------- stream (ii)
 def cli_cases(rng, quick):
     groups = []
-    n_worlds = 14 if quick else 80
+    n_worlds = 20 if quick else 100
     for wi in range(n_worlds):
         paralog = (wi % 2 == 1)
         w = gen_paralog_case(rng) if paralog else gen_world_case(rng, max_tx=7, p_intronic=0.25, nrec=(2, 2, 3, 4))
         if len(w['records']) < 2:
             continue
+        w['kinds'] = collections.Counter()
+        if not paralog and w.get('_world') is not None and rng.random() < 0.7:
+            wd = w['_world']
+            extra = []
+            for g in wd['genes']:
+                for t in g['transcripts']:
+                    if len(t['exons']) >= 2 and rng.random() < 0.6:
+                        extra += as_records(rng, wd, g, t)
+                    if rng.random() < 0.25:
+                        extra += fusion_records(rng, wd, g, t)
+            for r in extra:
+                w['kinds'][r['alt']] += 1
+            # pairs that differ in one attribute only
+            by = collections.Counter((r['tx'], r['pos'], r['alt']) for r in extra)
+            w['kinds']['pairs differing in one attribute'] = sum(1 for v in by.values() if v > 1)
+            w['records'] = w['records'] + extra
+        ref_args, protkinds = [], {}
+        if rng.random() < 0.7:
+            w['world'] = dict(w['world'])
+            w['world']['proteome.fasta'], protkinds = mutate_proteome(rng, w['world']['proteome.fasta'])
+            if rng.random() < 0.35:
+                ref_args = ['--invalid-protein-as-noncoding']
         cargs = gen_cleavage_args(rng)
         if paralog and '--max-length' not in cargs and rng.random() < 0.8:
             cargs = cargs + ['--max-length', rng.choice([30, 36, 40])]
         base = dict(kind='cli', wid=wi, world=w['world'], threads=1, gvf_idx=False, index_dir=False, noncanonical=False,
-                    cleavage_args=cargs, paralog=w.get('paralog'))
+                    cleavage_args=cargs, paralog=w.get('paralog'), ref_args=ref_args, protkinds=protkinds, reckinds=dict(w['kinds']))
         one = [gvf_text(w['records'])]
         lays = partitions(rng, w['records'])
         singles = single_file_layouts(rng, w['records'])
@@ -425,6 +562,10 @@ def cli_cases(rng, quick):
             sb = n_split_blocks(recs)
             variants.append((nm, dict(base, gvfs=[gvf_text(recs)], split_blocks=sb), '0'))
             variants.append((nm + '+gvf-idx', dict(base, gvfs=[gvf_text(recs)], gvf_idx=True, split_blocks=sb), '0'))
+        alt2 = [gvf_text(f) for f in alternate_split(w['records']) if f]
+        variants.append(('alternate-split', dict(base, gvfs=alt2), '0'))
+        variants.append(('alternate-split-reversed', dict(base, gvfs=list(reversed(alt2))), '0'))
+        variants.append(('alternate-split-reversed+gvf-idx', dict(base, gvfs=list(reversed(alt2)), gvf_idx=True), '0'))
         variants.append(('index-dir', dict(base, gvfs=one, index_dir=True), '0'))
         variants.append(('hashseed-1', dict(base, gvfs=lays[2]), '1'))
         variants.append(('hashseed-31337', dict(base, gvfs=one), '31337'))
@@ -484,6 +625,12 @@ def eval_cli(ctx, groups, variant):
                 continue
             r = results[(wi, name)]
             stats['cli%s/' % ('-excON' if c.get('exc') == 'auto' else '') + name.rstrip('0123456789')] += 1
+            if name == 'index-dir':
+                for k_, v_ in (c.get('protkinds') or {}).items():
+                    stats['cli:index-dir/proteome ' + k_ + ('/invalid-as-noncoding' if c.get('ref_args') else '')] += v_
+            if name == 'alternate-split':
+                for k_, v_ in (c.get('reckinds') or {}).items():
+                    stats['cli:records/' + k_] += v_
             if c.get('split_blocks'):
                 stats['cli:file with non-adjacent blocks of a transcript' + ('+idx' if c.get('gvf_idx') else '')] += 1
             if c.get('index_dir') and c.get('paralog') and '--max-length' in c.get('cleavage_args', []) and c['paralog']['peptide_len'] > 25:
